@@ -124,7 +124,7 @@ class Violation(Exception):
 
 
 class Ctx:
-    def __init__(self, prop, tier, seed):
+    def __init__(self, prop, tier, seed, keep_replays=False):
         self.prop = prop
         self.tier = tier
         self.seed = seed
@@ -135,8 +135,9 @@ class Ctx:
         os.makedirs(self.work, exist_ok=True)
         os.makedirs(os.path.join(VERIF, "evidence"), exist_ok=True)
         os.makedirs(os.path.join(VERIF, "replays"), exist_ok=True)
-        for old in glob.glob(os.path.join(VERIF, "replays", prop + "-*.json")):
-            os.remove(old)
+        if not keep_replays:
+            for old in glob.glob(os.path.join(VERIF, "replays", prop + "-*.json")):
+                os.remove(old)
         self.violations = []          # list of (replay_path, no_input)
         self.known_lines = []
         self.notes = []
